@@ -27,6 +27,13 @@ def gen_mask(rng, horizon):
 
 def exc_factory(rng):
     cls = rng.choice(DEST_EXCS)
+    if rng.random() < 0.2:
+        # a destination that keeps one exception object and raises it again on every failure (`raise self._error`)
+        if cls is OSError:
+            stored = OSError(5, "stored destination failure")
+        else:
+            stored = cls("stored destination failure")
+        return cls.__name__ + ":same-object", (lambda i, stored=stored: stored)
 
     def make(i, cls=cls):
         if cls is OSError:
